@@ -6,7 +6,16 @@
 fn verdicts(alt: &Result<Altered, String>) -> (Result<bool, String>, bool) {
     match alt {
         Err(_) => (Ok(false), false),
-        Ok(a) => verdict_pair(&a.t, &a.st, &a.proof, &a.rst, &a.parts, VerifyAction::VerifyOnly),
+        Ok(a) => {
+            // the published relation over the documented generators; both verifying modes must give the library's verdict
+            let (lv, rv) = verdict_pair(&a.t, &a.st, &a.proof, &a.rst_doc, &a.parts, VerifyAction::VerifyOnly);
+            let (lv2, _) = verdict_pair(&a.t, &a.st, &a.proof, &a.rst_doc, &a.parts, VerifyAction::RecoverAndVerify);
+            match (lv, lv2) {
+                (Ok(x), Ok(y)) if x != y => (Err(format!("VerifyOnly says {x} but RecoverAndVerify says {y}")), rv),
+                (Err(e), _) | (_, Err(e)) => (Err(e), rv),
+                (Ok(x), _) => (Ok(x), rv),
+            }
+        },
     }
 }
 
@@ -54,6 +63,7 @@ fn one(ctx: &Ctx, rep: &mut Report, id: usize, cfg: Cfg, k: usize) {
         rep.eval(&(GROUP, case.key(), name.to_string()));
         rep.count("verdict_comparisons", 1);
         match lv {
+            Err(p) if p.starts_with("VerifyOnly says") => rep.violation(&format!("C02 modes-disagree {sig_cfg} [{}]", class_of(name)), &format!("on input `{name}`: {p}"), replay(name)),
             Err(p) => rep.violation(&format!("C02 verify-panic {sig_cfg}"), &format!("verifier panicked on `{name}`: {p}"), replay(name)),
             Ok(l) => {
                 if l {
@@ -144,6 +154,7 @@ fn dishonest(
             commitments[j] = &commitments[j] + &(prm.h_base() * extra_h);
         }
         let rst = ref_statement_of(&prm, cfg.m, &commitments, &promises);
+        let rst_doc = ref_statement_documented(&prm, cfg.m, &commitments, &promises);
         let w = RefWitness { values: values.clone(), blindings };
         let t = case.transcript();
         let mut nonce = |_: &str, _: Option<usize>, _: Option<usize>| rand_scalar(&mut r);
@@ -151,7 +162,7 @@ fn dishonest(
         let parts = Parts::from_ref(&rp);
         let proof = parts.to_proof().map_err(|e| format!("decode: {e}"))?;
         let st = RangeStatement::init(prm.clone(), commitments, promises, None).map_err(|e| format!("statement: {e}"))?;
-        Ok(Altered { t, st, proof, rst, parts })
+        Ok(Altered { t, st, proof, rst, rst_doc, parts })
     };
     let honest_digits = |values: &[u64], promises: &[Option<u64>]| -> Vec<u64> {
         let mut d = vec![];
@@ -249,6 +260,7 @@ fn build_radix_n1(case: &Case, prm: &Params, j: usize, rng: &mut impl RngCore) -
     let commitments: Vec<P> = (0..cfg.m).map(|i| commit(prm.pc_gens(), values[i], &blindings[i])).collect();
     let promises = vec![None; cfg.m];
     let rst = ref_statement_of(prm, cfg.m, &commitments, &promises);
+    let rst_doc = ref_statement_documented(prm, cfg.m, &commitments, &promises);
     let w = RefWitness { values, blindings };
     let t = case.transcript();
     let mut nonce = |_: &str, _: Option<usize>, _: Option<usize>| rand_scalar(rng);
@@ -256,7 +268,7 @@ fn build_radix_n1(case: &Case, prm: &Params, j: usize, rng: &mut impl RngCore) -
     let parts = Parts::from_ref(&rp);
     let proof = parts.to_proof().map_err(|e| format!("decode: {e}"))?;
     let st = RangeStatement::init(prm.clone(), commitments, promises, None).map_err(|e| format!("statement: {e}"))?;
-    Ok(Altered { t, st, proof, rst, parts })
+    Ok(Altered { t, st, proof, rst, rst_doc, parts })
 }
 
 trait PowCompat {
